@@ -127,8 +127,8 @@ package db
 //@   modifies M:bv8 alloc
 //@   requires f != nil && 0 <= pagesize && pagesize <= 65536
 //@   ensures [buffer] len(r0) == pagesize && fresh(r0)
-//@   ensures [content] err == nil ==> (forall k int :: 0 <= k && k < pagesize ==> r0[k] == file_byte(cc_now, (id - 1) * pagesize + k))
 //@   ensures [reach] 0 <= map_len && map_len <= 281474976710656 && 1 <= id && id <= 4294967295 && 1 <= pagesize && id * pagesize <= file_len ==> err == nil
+//@   ensures [content] err == nil ==> (forall k int :: 0 <= k && k < pagesize ==> r0[k] == file_byte(cc_now, (id - 1) * pagesize + k))
 
 // newFilePager: must not disturb the locks other handles of this process hold on the file.
 //@ func db.newFilePager
